@@ -31,10 +31,11 @@ def is_widening(fr, to):
 
 
 class Sym:
-    def __init__(self, prog, fn, inline_depth=3):
+    def __init__(self, prog, fn, inline_depth=3, ifconv=True):
         self.prog = prog
         self.fn = fn
         self.inline_depth = inline_depth
+        self.ifconv = ifconv
         self._memo = {}
 
     # ---------------------------------------------------------------- expressions
@@ -98,21 +99,212 @@ class Sym:
         d = fn.defs().get(l, [])
         full = [x for x in d if x[2] != "partial"]
         if len(d) != 1 or len(full) != 1:
-            e = ("var", l, fn.local_name(l) or "")
-            self._memo[key] = e
+            e = None
+            pos = getattr(self, "_pos", None)
+            exp = self.__dict__.setdefault("_expanding", set())
+            if self.ifconv and pos is not None and len(full) == len(d) and len(d) >= 2 and depth < 20 and (l, pos) not in exp and len(exp) < 40:
+                exp.add((l, pos))
+                try:
+                    e = self._value_at(l, pos, depth, subst)
+                finally:
+                    exp.discard((l, pos))
+                if e is not None and contains(e, lambda t: t[0] == "unknown"):
+                    e = None
+            if e is None:
+                e = ("var", l, fn.local_name(l) or "")
             return e
         sd = full[0]
-        if sd[2] == "arg":
-            e = ("param", l, fn.local_name(l) or "")
-        elif sd[2] == "assign":
-            rv = fn.blocks[sd[0]].stmts[sd[1]][2]
-            e = self.rvalue(rv, depth + 1, subst)
-        else:
-            site = fn.blocks[sd[0]].term[1]
-            e = self.call_expr(site, depth + 1, subst)
-        e = self._norm(e)
-        self._memo[key] = e
+        e = self._def_expr(l, sd, depth, subst)
+        if not contains(e, lambda t: t[0] == "unknown") and not self.__dict__.get("_expanding"):
+            self._memo[key] = e
         return e
+
+    def _def_expr(self, l, sd, depth, subst):
+        fn = self.fn
+        saved = getattr(self, "_pos", None)
+        try:
+            if sd[2] == "arg":
+                e = ("param", l, fn.local_name(l) or "")
+            elif sd[2] == "assign":
+                self._pos = (sd[0], sd[1])
+                rv = fn.blocks[sd[0]].stmts[sd[1]][2]
+                e = self.rvalue(rv, depth + 1, subst)
+            else:
+                self._pos = (sd[0], "t")
+                site = fn.blocks[sd[0]].term[1]
+                e = self.call_expr(site, depth + 1, subst)
+        finally:
+            self._pos = saved
+        return self._norm(e)
+
+    def _reaches(self, a, b):
+        fn = self.fn
+        seen, st = set(), [a]
+        while st:
+            x = st.pop()
+            if x == b:
+                return True
+            if x in seen:
+                continue
+            seen.add(x)
+            st.extend(fn.succs(x))
+        return False
+
+    def at(self, block, idx="t"):
+        """set the program point at which mutable locals are read (enables if-conversion of two reaching definitions)"""
+        self._pos = (block, idx)
+        return self
+
+    def _reaching_defs(self, l, pos):
+        """definitions of local l that reach program point pos (None if the search is inconclusive)"""
+        fn = self.fn
+        defs = fn.defs().get(l, [])
+        by_block = {}
+        for d in defs:
+            by_block.setdefault(d[0], []).append(d)
+        out = set()
+        b0, i0 = pos
+
+        def last_def_in(b, before):
+            best = None
+            for d in by_block.get(b, []):
+                di = d[1]
+                if di == "t":
+                    if before is None:
+                        best = d
+                    continue
+                if before is None or (before != "t" and di < before) or (before == "t"):
+                    if best is None or best[1] == "t" or di > best[1]:
+                        if best is not None and best[1] == "t":
+                            continue
+                        best = d
+            if before is None:
+                # terminator definition is the last one in the block
+                for d in by_block.get(b, []):
+                    if d[1] == "t":
+                        return d
+            return best
+
+        d = last_def_in(b0, i0)
+        if d is not None:
+            return {d}
+        seen = set()
+        stack = list(fn.preds(b0))
+        hit_entry = (b0 == 0)
+        while stack:
+            b = stack.pop()
+            if b in seen:
+                continue
+            seen.add(b)
+            d = last_def_in(b, None)
+            if d is not None:
+                out.add(d)
+                continue
+            if b == 0:
+                hit_entry = True
+            stack.extend(fn.preds(b))
+        if hit_entry:
+            argd = [x for x in defs if x[2] == "arg"]
+            if argd:
+                out.add(argd[0])
+            else:
+                return None
+        if b0 in seen:
+            return None  # the use is inside a loop that can carry a later definition around
+        return out
+
+    def _value_at(self, l, pos, depth, subst):
+        fn = self.fn
+        R = self._reaching_defs(l, pos)
+        if not R:
+            return None
+        R = sorted(R, key=lambda d: (d[0], 0 if d[1] == "t" else 1, d[1] if d[1] != "t" else 0))
+        if len(R) == 1:
+            return self._def_expr(l, R[0], depth, subst)
+        if len(R) > 4:
+            return None
+        if len(R) > 2:
+            # peel the definition that sits in one arm of a switch which all the others precede
+            idom = fn.dominators()
+            for db in R:
+                bb = db[0]
+                cur = bb
+                guard = 0
+                while cur in idom and idom[cur] != cur and guard < 200:
+                    guard += 1
+                    cur = idom[cur]
+                    t = fn.blocks[cur].term
+                    if t[0] != "switch" or len(t[2]) != 1:
+                        continue
+                    zero_t, other_t, val0 = t[2][0][1], t[3], t[2][0][0]
+                    arm_b = None
+                    for tgt in (zero_t, other_t):
+                        if fn.dominates(tgt, bb) and self.edge_dominates(cur, tgt, bb):
+                            arm_b = tgt
+                    if arm_b is None:
+                        continue
+                    others = [x for x in R if x != db]
+                    if all((x[0] == cur) or (x[0] == -1) or (fn.dominates(x[0], cur) or self._reaches(x[0], cur)) and not fn.dominates(arm_b, x[0]) for x in others):
+                        saved = getattr(self, "_pos", None)
+                        self._pos = (cur, "t")
+                        cond = self.operand(t[1], depth + 1, subst)
+                        rest = self._value_at(l, (cur, "t"), depth + 1, subst)
+                        self._pos = saved
+                        if rest is None:
+                            break
+                        vb = self._def_expr(l, db, depth, subst)
+                        if arm_b == zero_t:
+                            return ("select", cond, rest, vb) if val0 == 0 else ("select", ("bin", "Eq", cond, ("const", val0)), vb, rest)
+                        return ("select", cond, vb, rest) if val0 == 0 else ("select", ("bin", "Eq", cond, ("const", val0)), rest, vb)
+                    break
+            return None
+        d1, d2 = R
+        # find a bool/discriminant switch separating them
+        for (da, db) in ((d1, d2), (d2, d1)):
+            # case (a): both in different arms of one switch; case (b): da dominates the switch, db in one arm
+            ba, bb = da[0], db[0]
+            idom = fn.dominators()
+            cur = bb
+            guard = 0
+            while cur in idom and idom[cur] != cur and guard < 200:
+                guard += 1
+                prev = cur
+                cur = idom[cur]
+                t = fn.blocks[cur].term
+                if t[0] != "switch" or len(t[2]) != 1:
+                    continue
+                # which successor leads to db ?
+                zero_t, other_t = t[2][0][1], t[3]
+                val0 = t[2][0][0]
+                arm_b = None
+                for tgt in (zero_t, other_t):
+                    if fn.dominates(tgt, bb) and self.edge_dominates(cur, tgt, bb):
+                        arm_b = tgt
+                if arm_b is None:
+                    continue
+                other = other_t if arm_b == zero_t else zero_t
+                # da must reach through the other arm (in it) or dominate the switch
+                in_other = fn.dominates(other, ba) and self.edge_dominates(cur, other, ba)
+                before = (ba == cur) or (fn.dominates(ba, cur) and ba != bb)
+                if not (in_other or before):
+                    continue
+                saved = getattr(self, "_pos", None)
+                self._pos = (cur, "t")
+                cond = self.operand(t[1], depth + 1, subst)
+                self._pos = saved
+                vb = self._def_expr(l, db, depth, subst)
+                va = self._def_expr(l, da, depth, subst)
+                # truth of cond on the arm leading to db
+                if arm_b == zero_t:
+                    cond_b = ("bin", "Eq", cond, ("const", val0))
+                    if val0 == 0:
+                        return ("select", cond, va, vb)   # cond true -> other arm (da)
+                    return ("select", cond_b, vb, va)
+                else:
+                    if val0 == 0:
+                        return ("select", cond, vb, va)   # cond != 0 -> db
+                    return ("select", ("bin", "Eq", cond, ("const", val0)), va, vb)
+        return None
 
     def rvalue(self, rv, depth=0, subst=None):
         k = rv[0]
@@ -411,6 +603,8 @@ def show(e, depth=0):
         return "discr(%s)" % show(e[1], depth + 1)
     if k == "variant":
         return "(%s as %s)" % (show(e[1], depth + 1), e[2])
+    if k == "select":
+        return "(if %s then %s else %s)" % (show(e[1], depth + 1), show(e[2], depth + 1), show(e[3], depth + 1))
     return k
 
 
